@@ -853,6 +853,25 @@ def rule_ndet1(ctx: Ctx) -> RuleResult:
                     continue
                 # hash(...) rendered to a token used for equality/de-duplication only
                 if f.name == "get_hash_string":
+                    # NDET-3: the token keeps every bit of the hash.  A narrowed value (mask, modulo, shift, slice of its
+                    # text) makes distinct object shapes collide, and which ones collide changes with the hash seed.
+                    narrowed = None
+                    cur, par = n, f.module.parents.get(n)
+                    while par is not None and not isinstance(par, ast.stmt):
+                        if isinstance(par, ast.BinOp) and isinstance(par.op, (ast.BitAnd, ast.Mod, ast.RShift, ast.FloorDiv, ast.Div)) \
+                                and (par.left is cur or isinstance(par.op, ast.BitAnd)):
+                            narrowed = f"`{norm(par)[-40:]}` keeps only part of the value"
+                        if isinstance(par, ast.Subscript) and par.value is cur:
+                            narrowed = f"`{norm(par)[-40:]}` keeps only part of the text"
+                        if isinstance(par, ast.Call) and norm(par.func) in ("int", "abs", "bool", "len", "round", "divmod"):
+                            narrowed = f"`{norm(par.func)}(...)` maps different hashes to one value"
+                        cur, par = par, f.module.parents.get(par)
+                    if narrowed:
+                        rr.ob(f.relpath, f.qualname, text, st_hash, VIOLATED,
+                              f"{narrowed}: two differently shaped objects get the same de-duplication token with "
+                              f"non-negligible probability, one of them is dropped from the union, and which pair collides "
+                              f"depends on PYTHONHASHSEED", n.lineno)
+                        continue
                     rr.ob(f.relpath, f.qualname, text, st, ALLOWED, "hash of a tuple of (key, hash string) pairs rendered "
                           "to a de-duplication token compared for equality only; never ordered or emitted", n.lineno)
                     continue
